@@ -17,8 +17,12 @@ RULE = ("per-run seed -> storage configuration (simulated FileStorage with mmap 
         "or one RamStorage shared by threads) + 1-2 writer actors (2-5 transactions each: adds, updates, deletes; commit with "
         "merge in {none, default, optimize, CLEAR, custom} or cancel) + 1-3 reader actors (open searcher, full read-back "
         "probe through the held searcher, up_to_date, refresh, close) as simulated threads or processes; every storage "
-        "operation of every actor is a scheduling point and the seeded scheduler (uniform / sticky p in {0.5,0.9,0.99}) "
-        "decides who runs. The recorded history (invoke/return stamped with the global event number, TOC rename and "
+        "operation of every actor is a scheduling point and the seeded scheduler (uniform / sticky p in {0.5,0.9,0.99} / PCT priority "
+        "schedules with 1-3 change points) decides who runs; 30% 'churn' runs (many tiny merging commits against readers that mostly "
+        "re-open), 20% deletion-heavy runs (a big first segment losing documents commit after commit, no merging); readers may wait "
+        "for the next commit to return; the cyclic GC fires at seeded step events. Every probe also searches through the searcher "
+        "(sorted by a column-less field, scored, document numbers) and compares with a searcher freshly opened on the same "
+        "generation. The recorded history (invoke/return stamped with the global event number, TOC rename and "
         "commit-return numbers per generation) is checked afterwards. Non-trivial = >=1 commit, >=1 probe and >=1 context "
         "switch; distinct = distinct event-log SHA-256; interleaving signature = hash of (from,to,event kind) at switches.")
 ASSUMPTIONS = ["one searcher per simulated thread, as the documentation requires",
